@@ -1,6 +1,6 @@
 SPECIFICATION Spec
 CONSTANTS
-  MaxLen = 4
+  MaxLen = 3
   Plain = {"p1", "p3", "p6"}
   Rel8 = {"j8w", "j8n", "jmp8"}
   Rel32 = {"call32", "rip7", "lea7", "jcc32"}
